@@ -291,9 +291,9 @@ class SymMaker:
         self.decl[name] = 'int'
         return Sym(z3.ToReal(z3.Int(name)), True)
 
-    def time(self, name):
+    def time(self, name, tz='UTC'):
         self.decl[name] = 'time'
-        return SymTimestamp(z3.Int(name))
+        return SymTimestamp(z3.Int(name), tz=tz)
 
     def flag(self, name):
         """an arbitrary boolean; branching on it explores both values"""
@@ -320,10 +320,10 @@ class ConcreteMaker:
         self.decl[name] = 'int'
         return int(self.values[name])
 
-    def time(self, name):
+    def time(self, name, tz='UTC'):
         from .symtime import to_timestamp
         self.decl[name] = 'time'
-        return to_timestamp(int(self.values[name]))
+        return to_timestamp(int(self.values[name]), tz)
 
     def flag(self, name):
         self.decl[name] = 'bool'
